@@ -28,6 +28,15 @@ pub enum Leaf {
 	R(VRwLock),
 }
 
+impl std::fmt::Debug for Leaf {
+	fn fmt(&self, f: &mut std::fmt::Formatter<'_>) -> std::fmt::Result {
+		match self {
+			Leaf::M(x) => x.fmt(f),
+			Leaf::R(x) => x.fmt(f),
+		}
+	}
+}
+
 unsafe impl RawLock for Leaf {
 	fn poison(&self) {
 		match self {
@@ -172,6 +181,19 @@ pub enum Item {
 	P(&'static Pois),
 }
 
+impl std::fmt::Debug for Item {
+	fn fmt(&self, f: &mut std::fmt::Formatter<'_>) -> std::fmt::Result {
+		match self {
+			Item::L(x) => x.fmt(f),
+			Item::O(x) => x.fmt(f),
+			Item::B(x) => x.fmt(f),
+			Item::F(x) => x.fmt(f),
+			Item::T(x) => x.fmt(f),
+			Item::P(x) => x.fmt(f),
+		}
+	}
+}
+
 macro_rules! delegate {
 	($self:ident, $x:ident => $e:expr) => {
 		match $self {
@@ -308,11 +330,6 @@ unsafe impl Sharable for Item {
 // A poisonable wrapper adds no path element; `poisoned` reports whether any
 // wrapper on the way handed out Err.
 
-pub struct Found<'a, T: ?Sized> {
-	pub data: Option<&'a mut T>,
-	pub poisoned: bool,
-}
-
 impl ItemGuard<'_> {
 	pub fn at(&mut self, pos: &[usize]) -> Option<&mut Payload> {
 		match self {
@@ -334,14 +351,20 @@ impl ItemGuard<'_> {
 			},
 		}
 	}
-	/// per-member poison verdicts (paths of poisonable members that handed out Err)
-	pub fn poisoned_any(&self) -> bool {
+	/// Ok/Err verdicts of the poisonable wrappers below, depth first (wrapper before content)
+	pub fn poison_list(&self, out: &mut Vec<bool>) {
 		match self {
-			ItemGuard::L(_) | ItemGuard::O(_) => false,
-			ItemGuard::C(gs) => gs.iter().any(|g| g.poisoned_any()),
+			ItemGuard::L(_) | ItemGuard::O(_) => {}
+			ItemGuard::C(gs) => gs.iter().for_each(|g| g.poison_list(out)),
 			ItemGuard::P(r) => match &**r {
-				Ok(g) => g.poisoned_any(),
-				Err(_) => true,
+				Ok(g) => {
+					out.push(false);
+					g.poison_list(out)
+				}
+				Err(e) => {
+					out.push(true);
+					e.get_ref().poison_list(out)
+				}
 			},
 		}
 	}
@@ -368,13 +391,20 @@ impl ItemRGuard<'_> {
 			},
 		}
 	}
-	pub fn poisoned_any(&self) -> bool {
+	/// Ok/Err verdicts of the poisonable wrappers below, depth first (wrapper before content)
+	pub fn poison_list(&self, out: &mut Vec<bool>) {
 		match self {
-			ItemRGuard::L(_) | ItemRGuard::O(_) => false,
-			ItemRGuard::C(gs) => gs.iter().any(|g| g.poisoned_any()),
+			ItemRGuard::L(_) | ItemRGuard::O(_) => {}
+			ItemRGuard::C(gs) => gs.iter().for_each(|g| g.poison_list(out)),
 			ItemRGuard::P(r) => match &**r {
-				Ok(g) => g.poisoned_any(),
-				Err(_) => true,
+				Ok(g) => {
+					out.push(false);
+					g.poison_list(out)
+				}
+				Err(e) => {
+					out.push(true);
+					e.get_ref().poison_list(out)
+				}
 			},
 		}
 	}
@@ -401,13 +431,20 @@ impl ItemData<'_> {
 			},
 		}
 	}
-	pub fn poisoned_any(&self) -> bool {
+	/// Ok/Err verdicts of the poisonable wrappers below, depth first (wrapper before content)
+	pub fn poison_list(&self, out: &mut Vec<bool>) {
 		match self {
-			ItemData::L(_) | ItemData::O(_) => false,
-			ItemData::C(gs) => gs.iter().any(|g| g.poisoned_any()),
+			ItemData::L(_) | ItemData::O(_) => {}
+			ItemData::C(gs) => gs.iter().for_each(|g| g.poison_list(out)),
 			ItemData::P(r) => match &**r {
-				Ok(g) => g.poisoned_any(),
-				Err(_) => true,
+				Ok(g) => {
+					out.push(false);
+					g.poison_list(out)
+				}
+				Err(e) => {
+					out.push(true);
+					e.get_ref().poison_list(out)
+				}
 			},
 		}
 	}
@@ -434,13 +471,20 @@ impl ItemRData<'_> {
 			},
 		}
 	}
-	pub fn poisoned_any(&self) -> bool {
+	/// Ok/Err verdicts of the poisonable wrappers below, depth first (wrapper before content)
+	pub fn poison_list(&self, out: &mut Vec<bool>) {
 		match self {
-			ItemRData::L(_) | ItemRData::O(_) => false,
-			ItemRData::C(gs) => gs.iter().any(|g| g.poisoned_any()),
+			ItemRData::L(_) | ItemRData::O(_) => {}
+			ItemRData::C(gs) => gs.iter().for_each(|g| g.poison_list(out)),
 			ItemRData::P(r) => match &**r {
-				Ok(g) => g.poisoned_any(),
-				Err(_) => true,
+				Ok(g) => {
+					out.push(false);
+					g.poison_list(out)
+				}
+				Err(e) => {
+					out.push(true);
+					e.get_ref().poison_list(out)
+				}
 			},
 		}
 	}
